@@ -400,7 +400,16 @@ class SupervisedTimeSeriesForest(ForestClassifier, BaseClassifier):
             axis=1,
         )
 
-        return estimator.predict_proba(transformed_x)
+        y_proba = estimator.predict_proba(transformed_x)
+
+        # a tree fitted on a bootstrap sample may not have seen every class
+        if y_proba.shape[1] != self.n_classes:
+            y_proba_all = np.zeros((n_instances, self.n_classes))
+            seen = np.searchsorted(self.classes_, estimator.classes_)
+            y_proba_all[:, seen] = y_proba
+            y_proba = y_proba_all
+
+        return y_proba
 
 
 def fisher_score(X, y, classes=None, class_counts=None):
